@@ -245,7 +245,10 @@ class MCollect(Model):
 
     def flush(self):
         items, self.cache = self.cache, []
-        return [(tuple(v for v, _ in items), tuple(m for _, ml in items for m in ml))]
+        k = self.spec.get('cache_maxlen')
+        # (a bounded caller-supplied cache keeps the last k values; the metadata cache is a separate, unbounded one)
+        vals = items[-k:] if k else items
+        return [(tuple(v for v, _ in vals), tuple(m for _, ml in items for m in ml))]
 
     def holders(self):
         return [m for _, ml in self.cache for m in ml]
